@@ -243,9 +243,13 @@ pub struct DSlot {
 }
 
 impl DSlot {
+    /// logical name: a stored first byte 0x05 stands for 0xE5
     pub fn name(&self) -> [u8; 11] {
         let mut n = [0u8; 11];
         n.copy_from_slice(&self.raw[0..11]);
+        if n[0] == 0x05 {
+            n[0] = 0xE5;
+        }
         n
     }
     pub fn attr(&self) -> u8 {
@@ -443,6 +447,11 @@ pub struct FNode {
 }
 
 pub fn name_to_string(n: &[u8]) -> String {
+    let mut m = n[0..11].to_vec();
+    if m[0] == 0x05 {
+        m[0] = 0xE5;
+    }
+    let n = &m[..];
     let base: String = n[0..8].iter().map(|c| *c as char).collect::<String>().trim_end().to_string();
     let ext: String = n[8..11].iter().map(|c| *c as char).collect::<String>().trim_end().to_string();
     if ext.is_empty() {
